@@ -55,6 +55,10 @@ def gen(seed, tier):
         spec = {"id": pid, "flavour": fl, "steps": [["sleep", t], step] if t > 0 else ([["spin", 1], step] if rng.random() < 0.3 else [step]), "fails": True, "trigger": True}
         if rng.random() < 0.3:
             spec["cleanup_sync"] = rng.randint(1, 3)
+        if fl != "threading" and step[0] == "raise" and via in ("queued", "adopt-driver", "adopt-payload") and rng.random() < 0.15:
+            # the payload fails when it is called, before it has produced a coroutine
+            spec["at_call"] = True
+            spec["steps"] = [step]
         if via == "queued":
             spec["via"] = "queued"
         elif via == "service-pre":
